@@ -129,10 +129,19 @@ func (e *Engine) intrinsic(fr *Frame, st *State, ins ssa.Instruction, fn *ssa.Fu
 			return tb.Or(tb.IntCmp(">=", tb.RootID(b), fr.old.clock), tb.mk("(_ is lit)", SBool, "", nil, b), tb.Eq(tb.Acc(args[0].(*Term), 2), tb.BV(0, 64))), true
 		case "inPos", "outLen", "outCalls":
 			n := map[string]string{"inPos": "in_pos", "outLen": "out_len", "outCalls": "out_calls"}[name]
-			return tb.Select(e.streamHeap(st, n), tb.Acc(args[0].(*Term), 1)), true
+			v := tb.Select(e.streamHeap(st, n), tb.Acc(args[0].(*Term), 1))
+			// assumption: ghost stream positions and call counts stay within [0, 2^61] in every state
+			if !v.open && v.Op != "bvlit" {
+				e.pendingFacts = append(e.pendingFacts, tb.And(tb.BVCmp("bvsle", tb.BV(0, 64), v), tb.BVCmp("bvsle", v, tb.BV(1<<61, 64))))
+			}
+			return v, true
 		case "inEnd":
 			tb.DeclareUF("in_end", "(Ref) (_ BitVec 64)")
-			return tb.App("in_end", SBV64, tb.Acc(args[0].(*Term), 1)), true
+			v := tb.App("in_end", SBV64, tb.Acc(args[0].(*Term), 1))
+			if !v.open {
+				e.pendingFacts = append(e.pendingFacts, tb.And(tb.BVCmp("bvsle", tb.BV(0, 64), v), tb.BVCmp("bvsle", v, tb.BV(1<<61, 64))))
+			}
+			return v, true
 		case "inByte":
 			tb.DeclareUF("in_data", "(Ref) "+string(SBytes))
 			return tb.Select(tb.App("in_data", SBytes, tb.Acc(args[0].(*Term), 1)), args[1].(*Term)), true
